@@ -16,6 +16,7 @@ import (
 	"path/filepath"
 	"runtime/pprof"
 	"sort"
+	"strings"
 	"time"
 
 	"verif/harness/hx"
@@ -61,6 +62,14 @@ func corpus() []*Shape {
 			Prog: []Op{{K: "upd", Key: 1, Val: 6001}, {K: "fupd", Key: 6, Val: 6006}, {K: "upd", Key: 12, Val: 6012}}},
 		{Opts: multiSep, HashMod: 2, Pre: seqPre(1, 2, 3, 4, 5, 6, 7, 8, 9, 10, 11, 12), Ending: "fail", FailAt: "region:1", Note: "corpus5: multi-leaf update (values in their own segment), Commit fails after one handle was flipped",
 			Prog: []Op{{K: "upd", Key: 1, Val: 6001}, {K: "fupd", Key: 6, Val: 6006}, {K: "upd", Key: 12, Val: 6012}, {K: "add", Key: 13, Val: 6013}}},
+		// 7: cold start: another process committed the store, the uncommitted writer reads first (in-place change in
+		// leaf A, removal in leaf B, add into leaf C), readers of its process after each op and after Rollback()
+		{Opts: multi, HashMod: 2, Pre: seqPre(1, 2, 3, 4, 5, 6, 7, 8, 9, 10, 11, 12), Ending: "rollback", Cold: true, ColdGate: "each", Note: "corpus7: cold start, value in node, update/remove/add in three leaves, Rollback",
+			Prog: []Op{{K: "fupd", Key: 2, Val: 8002}, {K: "rem", Key: 7}, {K: "add", Key: 13, Val: 8013}}},
+		{Opts: sopx.StoreOpts{Slot: 4, Unique: true, InNode: false}, HashMod: 2, Pre: seqPre(1, 2, 3, 4, 5, 6, 7, 8, 9, 10, 11, 12), Ending: "rollback", Cold: true, ColdGate: "each", Note: "corpus7b: cold start, values in their own segment, update/remove/add in three leaves, Rollback",
+			Prog: []Op{{K: "fupd", Key: 2, Val: 8002}, {K: "rem", Key: 7}, {K: "add", Key: 13, Val: 8013}}},
+		{Opts: multi, HashMod: 2, Pre: seqPre(1, 2, 3, 4, 5, 6, 7, 8, 9, 10, 11, 12), Ending: "rollback", Cold: true, ColdGate: "last", Note: "corpus7c: cold start, readers only after the last op and after Rollback",
+			Prog: []Op{{K: "fupd", Key: 2, Val: 8002}, {K: "rem", Key: 7}, {K: "add", Key: 13, Val: 8013}}},
 		// 6: plain Rollback() of a writer with adds, updates and removes
 		{Opts: multi, HashMod: 3, Pre: seqPre(2, 4, 6, 8, 10, 12, 14, 16, 18, 20), Ending: "rollback", Note: "corpus6: mixed program, Rollback instead of Commit",
 			Prog: []Op{{K: "add", Key: 1, Val: 7001}, {K: "rem", Key: 4}, {K: "upd", Key: 20, Val: 7020}, {K: "ups", Key: 9, Val: 7009}}},
@@ -237,6 +246,83 @@ func genShape(r *hx.Rng, i int) *Shape {
 	return sh
 }
 
+// genColdShape: cold-start family. In-place changes of existing nodes by a writer that is mostly rolled back.
+func genColdShape(r *hx.Rng, i int) *Shape {
+	sh := &Shape{Opts: optCombos[(i+r.Intn(2))%len(optCombos)], HashMod: hx.Pick(r, []int{2, 3}), Cold: true, ColdGate: hx.Pick(r, []string{"each", "each", "last"})}
+	var keys []int
+	if r.Chance(25) {
+		sh.Opts.Slot = 8
+		keys = []int{10 + r.Intn(5), 20 + r.Intn(5), 30 + r.Intn(5)}
+	} else {
+		sh.Opts.Slot = 4
+		k := 1 + r.Intn(3)
+		for j, n := 0, 10+r.Intn(5); j < n; j++ {
+			keys = append(keys, k)
+			k += 1 + r.Intn(3)
+		}
+	}
+	present := map[int]bool{}
+	for _, k := range keys {
+		sh.Pre = append(sh.Pre, [2]int{k, 100 + k})
+		present[k] = true
+	}
+	existing := func() int {
+		var ks []int
+		for _, k := range keys {
+			if present[k] {
+				ks = append(ks, k)
+			}
+		}
+		if len(ks) == 0 {
+			return keys[0]
+		}
+		return hx.Pick(r, ks)
+	}
+	fresh := func() int {
+		for t := 0; t < 60; t++ {
+			if k := r.Intn(keys[len(keys)-1] + 4); !present[k] {
+				return k
+			}
+		}
+		return keys[len(keys)-1] + 5 + r.Intn(9)
+	}
+	tracked := false
+	for j, n := 0, 1+r.Intn(5); j < n; j++ {
+		o := Op{Val: 8000 + 31*i%900 + j}
+		switch c := r.Intn(10); {
+		case c < 4:
+			o.K, o.Key = hx.Pick(r, []string{"fupd", "upd", "fupd"}), existing()
+			tracked = true
+		case c < 7:
+			o.K, o.Key, o.Val = "rem", existing(), 0
+			present[o.Key] = false
+		case c < 9:
+			o.K, o.Key = "add", fresh()
+			present[o.Key] = true
+			tracked = true
+		default:
+			o.K, o.Key = "ups", existing()
+			tracked = true
+		}
+		sh.Prog = append(sh.Prog, o)
+	}
+	if sh.Opts.ActivelyP && !tracked { // see genShape: remove-only on actively-persisted stores is a no-op commit
+		sh.Prog = append(sh.Prog, Op{K: "fupd", Key: existing(), Val: 8999})
+	}
+	switch e := r.Intn(10); {
+	case e < 5:
+		sh.Ending = "rollback"
+	case e < 7:
+		sh.Ending = "p1rollback"
+	case e < 9:
+		sh.Ending, sh.FailAt = "fail", "flip"
+	default:
+		sh.Ending = "commit" // control
+	}
+	sh.Note = "gen:cold"
+	return sh
+}
+
 // ---------------------------------------------------------------- one shape
 
 type pauseMode struct {
@@ -309,6 +395,10 @@ func (h *harness) fail(sig, what string, in Input) {
 }
 
 func (h *harness) runShape(sh *Shape, pm pauseMode) {
+	if sh.Cold {
+		h.runColdShape(sh)
+		return
+	}
 	res := h.res
 	m := buildModel(sh)
 	res.Count("shape")
@@ -323,7 +413,7 @@ func (h *harness) runShape(sh *Shape, pm pauseMode) {
 	// dry run: number of armed calls and where the structural pause points are
 	dtr := newTracker(sh)
 	dtr.dry = true
-	dout, err := h.exec(sh, m, dtr, nil)
+	dout, err := h.exec(sh, m, dtr, nil, execOpt{})
 	if err != nil {
 		res.Notes = append(res.Notes, fmt.Sprintf("dry run of %q could not be set up: %v", sh.Note, err))
 		res.Count("setup-error")
@@ -359,7 +449,7 @@ func (h *harness) runShape(sh *Shape, pm pauseMode) {
 		}
 		occ[p.Key]++
 	}
-	out, err := h.exec(sh, m, tr, onPause)
+	out, err := h.exec(sh, m, tr, onPause, execOpt{})
 	if err != nil {
 		res.Notes = append(res.Notes, fmt.Sprintf("shape %q could not be set up: %v", sh.Note, err))
 		res.Count("setup-error")
@@ -516,7 +606,13 @@ func (h *harness) record(m *model, stage int, o *Obs, where string, merged int64
 		res.Count("reader.no-observation")
 		return // the store could not even be opened: nothing was observed
 	}
-	devs, mixed := check(m, stage, o, where, merged)
+	var devs []deviation
+	mixed := false
+	if strings.HasPrefix(where, "cold-start") && (stage == 0 || stage == 5) {
+		devs = checkCold(m, stage, o, where)
+	} else {
+		devs, mixed = check(m, stage, o, where, merged)
+	}
 	variant := ""
 	if where == "cold-l2" {
 		variant = ".cold-l2"
@@ -559,6 +655,8 @@ func (h *harness) record(m *model, stage int, o *Obs, where string, merged int64
 		kind := "reader"
 		if where == "cold-l2" {
 			kind = "cold-L2 reader (registry handles of the writer evicted from L2 before it ran)"
+		} else if where == "cold-start" {
+			kind = "reader in the writer's process (cold start: the store was committed by another process, the writer read first)"
 		} else if where != "" {
 			kind = where + " reader after the writer finished"
 		}
@@ -578,7 +676,7 @@ func (h *harness) probeActivelyPersistedRemoveOnly() {
 	m := buildModel(sh)
 	tr := newTracker(sh)
 	tr.dry = true
-	out, err := h.exec(sh, m, tr, nil)
+	out, err := h.exec(sh, m, tr, nil, execOpt{})
 	if err != nil {
 		h.res.Notes = append(h.res.Notes, "activelyp remove-only probe could not run: "+err.Error())
 		return
@@ -682,6 +780,17 @@ func run(cfg *hx.RunCfg) (*hx.Result, error) {
 	for k, v := range h.tm {
 		h.tracef("time %-24s %v\n", k, v)
 	}
+	ncold := 6
+	if thorough {
+		ncold = 60
+	}
+	if cfg.N != 0 {
+		ncold = (cfg.N + 2) / 3
+	}
+	for i := 0; i < ncold; i++ {
+		h.runShape(genColdShape(h.rng, i), pauseMode{only: -1})
+	}
+	h.flushDumps()
 	left, _ := filepath.Glob(filepath.Join(root, "*"))
 	if len(left) > 0 {
 		res.Notes = append(res.Notes, fmt.Sprintf("%d scratch folders were left by stuck runs (removed now)", len(left)))
